@@ -17,21 +17,21 @@ import (
 // a tree just created by Mkdir with any extension list verifies strictly.
 
 type c08Case struct {
-	Forest  model.Forest  `json:"forest"` // distinct roots, valid path elements without tab/newline
-	Entry   string        `json:"entry"`  // md | root
-	Strict  bool          `json:"strict"`
-	Target  string        `json:"target"` // "", rel, slash
-	Massive bool          `json:"massive,omitempty"`
-	Drop    []int         `json:"drop,omitempty"`    // pre-order indexes of node paths removed (with their subtrees)
-	AsFile  []int         `json:"asFile,omitempty"`  // pre-order indexes of node paths present as regular files
-	Extra   []ops.FSEntry `json:"extra,omitempty"`   // extra entries, relative to the target
-	History string        `json:"history,omitempty"` // "", mkdir (state produced by Mkdir of the same forest with Exts)
-	NoTarget bool         `json:"noTarget,omitempty"` // the target directory itself does not exist
-	RootLink bool         `json:"rootLink,omitempty"` // every root directory is a symbolic link to a directory kept beside the roots
-	Refusal  string       `json:"refusal,omitempty"`  // longroot: a root name of 256 bytes; targetIsFile: the target path is a regular file
-	Exts    []string      `json:"exts,omitempty"`
-	PreOps  []string      `json:"preOps,omitempty"` // root entry: earlier operations on the same node tree ...
-	Again   int           `json:"again,omitempty"`  // ... which then lacked its last Again nodes (added afterwards, before the verified call)
+	Forest   model.Forest  `json:"forest"` // distinct roots, valid path elements without tab/newline
+	Entry    string        `json:"entry"`  // md | root
+	Strict   bool          `json:"strict"`
+	Target   string        `json:"target"` // "", rel, slash
+	Massive  bool          `json:"massive,omitempty"`
+	Drop     []int         `json:"drop,omitempty"`     // pre-order indexes of node paths removed (with their subtrees)
+	AsFile   []int         `json:"asFile,omitempty"`   // pre-order indexes of node paths present as regular files
+	Extra    []ops.FSEntry `json:"extra,omitempty"`    // extra entries, relative to the target
+	History  string        `json:"history,omitempty"`  // "", mkdir (state produced by Mkdir of the same forest with Exts)
+	NoTarget bool          `json:"noTarget,omitempty"` // the target directory itself does not exist
+	RootLink bool          `json:"rootLink,omitempty"` // every root directory is a symbolic link to a directory kept beside the roots
+	Refusal  string        `json:"refusal,omitempty"`  // longroot: a root name of 256 bytes; targetIsFile: the target path is a regular file
+	Exts     []string      `json:"exts,omitempty"`
+	PreOps   []string      `json:"preOps,omitempty"` // root entry: earlier operations on the same node tree ...
+	Again    int           `json:"again,omitempty"`  // ... which then lacked its last Again nodes (added afterwards, before the verified call)
 }
 
 func init() { registerReplay("c08", c08Check) }
